@@ -370,7 +370,7 @@ int main(int argc, char** argv)
     } else if (op == "omovea") {
       int o = own_idx(a1), o2 = own_idx(a2);
       skip = (o == 2) != (o2 == 2) || !W->exists[o] || !W->exists[o2];
-    } else if (op == "probe" || op == "invoke" || op == "fnaddr") {
+    } else if (op == "probe" || op == "invoke" || op == "fnaddr" || op == "ptrrt") {
       // calling into a sandbox that is not created is undefined: never done
       int s = sb_idx(a1);
       skip = !W->sb[s] || !W->created[s];
@@ -578,6 +578,55 @@ int main(int argc, char** argv)
           }
         }
         e.str("out", "ok").raw("ran", ran + "]").raw("sbrefs", refs + "]");
+      } else if (op == "ptrrt") {
+        // pointer round trips through the memory of sandbox s (example-based translation,
+        // which on this backend walks the live-sandbox list)
+        int s = sb_idx(a1);
+        e.str("s", a1);
+        std::string res = "ok";
+        try {
+          auto& S = *W->sb[s];
+          auto pp = S.malloc_in_sandbox<int*>();
+          auto p = S.malloc_in_sandbox<int>(2);
+          auto parr = S.malloc_in_sandbox<int* [2]>();
+          if (!pp || !p || !parr) {
+            res = "malloc-null";
+          } else {
+#if !defined(BK_NOOP)
+            using GP = Sbx::T_PointerType;
+            uintptr_t base = S.get_sandbox_impl()->base;
+            GP want = (GP)(reinterpret_cast<uintptr_t>(p.UNSAFE_unverified()) - base);
+            *pp = p;
+            GP cell = *reinterpret_cast<GP*>(pp.UNSAFE_unverified());
+            tainted<int*, Sbx> back = *pp;
+            (*parr)[1] = p + 1;
+            GP acell = reinterpret_cast<GP*>(parr.UNSAFE_unverified())[1];
+            tainted<int*, Sbx> aback = (*parr)[1];
+            *pp = nullptr;
+            GP ncell = *reinterpret_cast<GP*>(pp.UNSAFE_unverified());
+            tainted<int*, Sbx> nback = *pp;
+            if (cell != want || back.UNSAFE_unverified() != p.UNSAFE_unverified()) {
+              res = "cell-mismatch";
+            } else if (acell != (GP)(want + 4) || aback.UNSAFE_unverified() != p.UNSAFE_unverified() + 1) {
+              res = "array-mismatch";
+            } else if (ncell != 0 || nback.UNSAFE_unverified() != nullptr) {
+              res = "null-mismatch";
+            } else if (!S.is_pointer_in_sandbox_memory(back.UNSAFE_unverified())) {
+              res = "outside";
+            }
+#else
+            *pp = p;
+            tainted<int*, Sbx> back = *pp;
+            if (back.UNSAFE_unverified() != p.UNSAFE_unverified()) {
+              res = "cell-mismatch";
+            }
+#endif
+            S.free_in_sandbox(p);
+          }
+        } catch (const std::runtime_error&) {
+          res = "abort";
+        }
+        e.str("out", res);
       } else if (op == "xlate") {
 #if !defined(BK_NOOP)
         int s = sb_idx(a1);
